@@ -141,3 +141,98 @@ def run(index, rep, tier):
                       "%s iterates over / samples from the set `%s` (`%s`): node and taxon hashes are address based, so the order differs between processes and the simulated tree is not reproducible from the generator state" % (f.qualname, sv, norm(uses[0])[:60] if uses else ""))
     if nset == 0:
         rep.ob("R18.2", "src/dendropy/model", "no set-typed locals in the simulators", True)
+
+    _distinct_labels_rule(index, rep)
+    _containment_rule(index, rep)
+
+
+def _distinct_labels_rule(index, rep):
+    """R18.3: `require_taxon(label=L)` returns an *existing* taxon when the label is taken, so a
+    generated label handed to it must have been tested against the labels in use."""
+    rep.rule("R18.3", "distinct taxa: in the birth-death simulators a generated label reaches require_taxon() only through the fresh side of a membership test against a set built from the namespace's labels")
+    n = 0
+    for f in index.functions_in_module("dendropy.model.birthdeath"):
+        g = None
+        for c in calls_in(f.node):
+            if call_name(c) != "require_taxon":
+                continue
+            lab = get_kwarg(c, "label") or (c.args[0] if c.args else None)
+            if lab is None:
+                continue
+            n += 1
+            g = g or cfg_of(f)
+            cn = node_of_ast(g, c)
+            if not isinstance(lab, ast.Name) or cn is None:
+                raise AnalysisError("R18.3: %s: require_taxon label `%s` is not a local name; shape not recognised" % (f.qualname, norm(lab)))
+            fresh_edges = set()
+            sets = set()
+            for nd in g.nodes:
+                e = nd.ast if nd.kind == "test" else None
+                if isinstance(e, ast.Compare) and len(e.ops) == 1 and isinstance(e.left, ast.Name) and e.left.id == lab.id and isinstance(e.ops[0], (ast.In, ast.NotIn)):
+                    fresh_edges.add((nd.id, "t" if isinstance(e.ops[0], ast.NotIn) else "f"))
+                    sets.add(norm(e.comparators[0]))
+            ok = bool(fresh_edges)
+            why = "no membership test on `%s`" % lab.id
+            if ok:
+                # with the fresh edges blocked the call must be unreachable
+                reach = g.reach([g.entry], edge_ok=lambda a, lab, b: (a.id, lab) not in fresh_edges)
+                ok = all(x is not cn for x in reach)
+                why = "require_taxon(label=%s) is reachable without taking the `%s not in ...` branch" % (lab.id, lab.id)
+            if ok:
+                # the tested collection is derived from the namespace
+                recv = c.func.value if isinstance(c.func, ast.Attribute) else None
+                tainted = _derived(f, {recv.id}) if isinstance(recv, ast.Name) else set()
+                ok = any(s in tainted for s in sets)
+                why = "the tested collection (%s) is not derived from the namespace require_taxon is called on" % ", ".join(sorted(sets))
+            rep.check(ok, "R18.3", f.qualname, "generated label reaches require_taxon unchecked", fn_where(f, c), "%s: generated labels are checked against the labels in use before require_taxon" % f.name,
+                      "%s: %s; require_taxon returns the existing Taxon when the label is already in the namespace, so two tips (or a tip and a taxon assigned earlier from the pool) can carry the same taxon: the N extant leaves do not carry N distinct taxa when the supplied namespace already holds labels of the generated form" % (f.qualname, why))
+    rep.floor("R18.3", "require_taxon sites in the birth-death simulators", 2, n)
+
+
+def _derived(f, seeds):
+    """names data-dependent on the seed names (flow-insensitive closure over assignments)."""
+    t = set(seeds)
+    changed = True
+    while changed:
+        changed = False
+        for n in walk_no_nested(f.node):
+            if isinstance(n, ast.Assign) and names_in(n.value) & t:
+                for tg in n.targets:
+                    for nm in ast.walk(tg):
+                        if isinstance(nm, ast.Name) and isinstance(nm.ctx, ast.Store) and nm.id not in t:
+                            t.add(nm.id)
+                            changed = True
+    return t
+
+
+CONTAINED = ["dendropy.model.coalescent.contained_coalescent_tree", "dendropy.model.coalescent.constrained_kingman_tree", "dendropy.model.reconcile.ContainingTree.simulate_contained_kingman"]
+
+
+def _containment_rule(index, rep):
+    """R18.4: gene lineages handed up to the parent population have been through coalesce_nodes for the branch's length."""
+    rep.rule("R18.4", "containment: in the contained-coalescent simulators every lineage list pushed up to the tail (parent) population is, on every definition, the result of coalesce_nodes(..., period=<edge>.length)")
+    for q in CONTAINED:
+        f = index.function(q)
+        pushed = []
+        for n in walk_no_nested(f.node):
+            if isinstance(n, ast.Call) and isinstance(n.func, ast.Attribute) and n.func.attr == "extend" and ".tail_node" in norm(n.func.value) and n.args:
+                pushed.append((n, n.args[0]))
+            elif isinstance(n, ast.Assign) and ".tail_node" in norm(n.targets[0]) and not isinstance(n.value, (ast.List, ast.ListComp, ast.Constant)):
+                pushed.append((n, n.value))
+        if not pushed:
+            raise AnalysisError("R18.4: %s: no push-up of lineages to the tail node found" % q)
+        for site, x in pushed:
+            if not isinstance(x, ast.Name):
+                rep.check(False, "R18.4", q, "push-up of non-local value: " + norm(x)[:50], fn_where(f, site), "", "%s hands `%s` up to the parent population without it being the result of coalesce_nodes for this branch" % (q, norm(x)[:50]))
+                continue
+            defs = [n for n in walk_no_nested(f.node) if isinstance(n, ast.Assign) and any(isinstance(t, ast.Name) and t.id == x.id for t in n.targets)]
+            bad = []
+            for d in defs:
+                v = d.value
+                period = get_kwarg(v, "period") if isinstance(v, ast.Call) and call_name(v) == "coalesce_nodes" else None
+                if period is None or not norm(period).endswith(".length"):
+                    bad.append(d)
+            ok = bool(defs) and not bad
+            rep.check(ok, "R18.4", q, "pushed-up lineages not from coalesce_nodes over the branch: " + (norm_stmt(bad[0])[:60] if bad else "no definition"), fn_where(f, bad[0] if bad else site),
+                      "%s: lineages pushed to the parent population come from coalesce_nodes(period=edge.length)" % f.name,
+                      "%s: the lineages handed up to the parent population can come from `%s` instead of coalesce_nodes(..., period=<edge>.length): those lineages' edges are not extended by the branch duration, so the gene tree is no longer ultrametric and lineages of different species can join more recently than the species diverged" % (q, norm_stmt(bad[0])[:80] if bad else "nothing"))
